@@ -280,6 +280,18 @@ def check(run):
     elif inf_cex:
         raise vlib.ToolError("MetricsConc has a +inf-bucket counterexample (%s) that the concurrent driver did not reproduce on the real "
                              "code in %d rounds" % (inf_cex[0][0], rounds + 2))
+    # ---- (4) the timed observation routes (the magnitude is a measured duration: judged on counts only)
+    t_t = os.path.join(wd, "timed.ndjson")
+    vlib.run_bin("h_metrics", ["timed", t_t], timeout=300)
+    ok, rejects, tr = validate_trace(D, "Trace_MetricsTimed", t_t, cfg="Trace_MetricsTimed.cfg", timeout=600)
+    run.add_tlc("Trace_MetricsTimed", tr, count_states=False)
+    run.cov["timed_route_records"] = len(read_ndjson(t_t))
+    run.cov["traces_validated_against_impl"] += 1
+    for rj in rejects:
+        rec = rj.get("rec", {})
+        run.violation("metrics:timed:%s:route%s" % (rec.get("kind"), rec.get("route")),
+                      "a timed observation route does not count every observation once: %s" % json.dumps(rec),
+                      {"reject": rj})
     pool.shutdown()
 
     run.cov["rule"] = ("TLC explores every history of observe/batch/push/exit/respawn within the listed bounds (ReportMatches in every "
